@@ -72,7 +72,7 @@ CHECKS = {
         deep=True,      # ./check adds --deep for the thorough tier: bounds beyond the promoted ones (see bounds["thorough"])
         level="exploration",
         runs=[dict(name="dh", target="h_dh", args=[], quick=[], thorough=[], post=c10_post)],
-        deadline=dict(quick=150, thorough=900),   # deep: ~195 s measured (3/4 of it the serial Python pow() re-verification of 69480 results)
+        deadline=dict(quick=300, thorough=1350),   # deep: ~195 s measured (3/4 of it the serial Python pow() re-verification of 69480 results)
         rule=("full cross product private value x (peer value | generate_pub) x blinding value incl. entropy failure, "
               "crypto_dh_generate for x * r * failure position, agreement for all pairs of private values, sanitycheck on p with every "
               "single byte/bit changed; a case is non-trivial when the call succeeded and the exact result is neither 0 nor 1 "
